@@ -60,13 +60,57 @@ class Main(Plain):
         self.calls.append(('on_ax', None if self.a is None else self.a.x))
 
 
+# ---- ordinary attributes stored in __slots__ declared by plain (non-Parameterized) classes in the MRO ----
+class SlotMixin:
+    """plain mixin keeping its attributes in slots"""
+    __slots__ = ('tag', 'hist')
+
+
+class SlotMixin2(SlotMixin):
+    """plain subclass of the mixin adding a slot of its own"""
+    __slots__ = ('more',)
+
+
+class SlotFirst(SlotMixin, Plain):
+    """mixin BEFORE the Parameterized base; the Parameterized subclass declares a slot itself"""
+    __slots__ = ('own',)
+
+
+class SlotLast(Plain, SlotMixin):
+    """mixin AFTER the Parameterized base; no slots of its own (instance __dict__ only)"""
+
+
+class SlotDeep(SlotMixin2, Plain):
+    """slots declared by a plain base and by that base's plain base"""
+    __slots__ = ()
+
+
+class SlotSub(SlotFirst):
+    """subclass of a slotted class: the mixin sits deeper in the MRO"""
+
+    w = param.Number(default=3)
+
+
+def slot_names(cls):
+    """names of the slots declared by any class of the MRO (declaration order along the MRO)"""
+    names = []
+    for k in cls.__mro__:
+        s = k.__dict__.get('__slots__', ())
+        for n in ((s,) if isinstance(s, str) else s):
+            if n not in ('__dict__', '__weakref__') and n not in names:
+                names.append(n)
+    return names
+
+
 def fn_watch(*events):
     """module-level (picklable) user watcher; logs on the object the event belongs to"""
     for e in events:
         e.obj.calls.append(('fn_watch', e.name, e.new))
 
 
-CLASSES = {'Plain': Plain, 'Main': Main}
+CLASSES = {'Plain': Plain, 'Main': Main, 'SlotFirst': SlotFirst, 'SlotLast': SlotLast, 'SlotDeep': SlotDeep,
+           'SlotSub': SlotSub}
+SLOT_CLASSES = ('SlotFirst', 'SlotLast', 'SlotDeep', 'SlotSub')
 
 
 # ------------------------------------------------------------------------------------------------
@@ -133,6 +177,25 @@ def pre_attr(o):
     return 'ok'
 
 
+def pre_slot(o):
+    """fill every slot: mutable lists and strings alternate"""
+    names = slot_names(type(o))
+    if not names:
+        return SKIP
+    for i, n in enumerate(names):
+        setattr(o, n, [n, i] if i % 2 == 0 else 'val-' + n)
+    return 'ok'
+
+
+def pre_slotpart(o):
+    """fill only the last slot; the others stay unset (and must stay unset on a copy)"""
+    names = slot_names(type(o))
+    if not names:
+        return SKIP
+    setattr(o, names[-1], [names[-1]])
+    return 'ok'
+
+
 PRE_OPS = {'set': pre_set, 'mut': pre_mut, 'pedit': pre_pedit, 'pmut': pre_pmut, 'attach': pre_attach,
            'subset': pre_subset, 'watch': pre_watch, 'watchfn': pre_watchfn, 'attr': pre_attr}
 
@@ -187,8 +250,32 @@ def post_watch(o):
     return 'ok'
 
 
+def post_slot(o):
+    """grow the lists held in slots in place, rebind the strings, fill one unset slot"""
+    names = slot_names(type(o))
+    if not names:
+        return SKIP
+    filled = False
+    for n in names:
+        if not hasattr(o, n):
+            if not filled:
+                setattr(o, n, ['late', n])
+                filled = True
+        elif isinstance(getattr(o, n), list):
+            getattr(o, n).append('grown')
+        else:
+            setattr(o, n, getattr(o, n) + '+')
+    return 'ok'
+
+
 POST_OPS = {'set': post_set, 'mut': post_mut, 'pedit': post_pedit, 'pmut': post_pmut, 'attach': post_attach,
             'subset': post_subset, 'attr': post_attr, 'const': post_const, 'watch': post_watch}
+
+# the alphabets of the slotted model classes (the other operations are covered on Plain / Main)
+SLOT_PRE_OPS = {'slot': pre_slot, 'slotpart': pre_slotpart, 'attr': pre_attr, 'set': pre_set, 'watch': pre_watch}
+SLOT_POST_OPS = {'slot': post_slot, 'attr': post_attr, 'set': post_set, 'mut': post_mut}
+_ALL_PRE = dict(PRE_OPS, **SLOT_PRE_OPS)
+_ALL_POST = dict(POST_OPS, **SLOT_POST_OPS)
 
 MECHS = ('deepcopy', 'pickle2', 'pickle3', 'pickle4', 'pickle5')
 
@@ -198,7 +285,7 @@ def build(cname, pre):
     o = CLASSES[cname](name='M')
     out = []
     for op in pre:
-        r = PRE_OPS[op](o)
+        r = _ALL_PRE[op](o)
         if r == SKIP:
             return None, None
         out.append((op, r))
@@ -208,7 +295,7 @@ def build(cname, pre):
 def apply_post(o, post):
     out = []
     for op in post:
-        r = POST_OPS[op](o)
+        r = _ALL_POST[op](o)
         if r == SKIP:
             return None
         out.append((op, r))
@@ -278,6 +365,7 @@ def snap(o):
         'values': {n: plain(getattr(o, n)) for n in sorted(pobjs)},
         'meta': meta,
         'attrs': {k: plain(v) for k, v in sorted(o.__dict__.items()) if k != '_param__private'},
+        'slots': {n: (plain(getattr(o, n)) if hasattr(o, n) else '<unset>') for n in slot_names(cls)},
     }
 
 
@@ -323,6 +411,9 @@ def _mutables(o):
             for k, v in x.__dict__.items():
                 if k != '_param__private':
                     walk(v, where + '.' + k)
+            for k in slot_names(type(x)):
+                if hasattr(x, k):
+                    walk(getattr(x, k), where + '.' + k)
         elif isinstance(x, (list, dict, set)):
             if id(x) in found:
                 return
